@@ -335,6 +335,43 @@ func c19Check(c c19Case) *Violation {
 		return c19CliSelect(c)
 	}
 	switch c.Mode {
+	case "history":
+		// a selector means the same whatever the process compiled before: c.More other selectors (each with a regexp
+		// of its own) are built between two uses of c.Sel; the filter made before and the one made after both follow
+		// the documented semantics
+		key, clauses, rerr := refSelector(c.Sel)
+		if rerr != nil {
+			return nil
+		}
+		var f1, f2 gts.Filter
+		var e1, e2 error
+		if pi := guard(func() {
+			f1, e1 = gts.Selector(c.Sel)
+			for i := 0; i < c.More; i++ {
+				g, err := gts.Selector(fmt.Sprintf("gene/note=^w%d[ab]?$/a=%d", i, i%7))
+				if err == nil {
+					g(gts.NewFeature("gene", gts.Range(0, 1), gts.Props{{"note", fmt.Sprintf("w%d", i)}}))
+				}
+			}
+			f2, e2 = gts.Selector(c.Sel)
+		}); pi != nil {
+			return panicViolation(fmt.Sprintf("Selector(%q) around %d other selectors", c.Sel, c.More), pi)
+		}
+		if e1 != nil || e2 != nil {
+			return viol("selector-error", "Selector(%q): errors %v / %v for a selector the reference parser accepts", c.Sel, e1, e2)
+		}
+		for _, f := range c.Table {
+			gf := f.toGts()
+			want := refAccept(key, clauses, f)
+			var g1, g2 bool
+			if pi := guard(func() { g1, g2 = f1(gf), f2(gf) }); pi != nil {
+				return panicViolation(fmt.Sprintf("Selector(%q) applied", c.Sel), pi)
+			}
+			if g1 != want || g2 != want {
+				return viol("selector-history", "Selector(%q) on key=%q qualifiers=%v: built first it returns %v, built again after %d other selectors it returns %v; documented semantics give %v", c.Sel, f.Key, f.Quals, g1, c.More, g2, want)
+			}
+		}
+		return nil
 	case "selector":
 		key, clauses, rerr := refSelector(c.Sel)
 		var filter gts.Filter
@@ -802,6 +839,20 @@ func TestC19(t *testing.T) {
 		return
 	}
 	// exhaustive order laws over all triples of a fixed pool of small locations
+	// process history: the same selectors before and after 1 .. 1100 other selectors were compiled
+	eh := enumPart(t, c19Prop, st, "selector-history")
+	{
+		table := []Feat{{Key: "gene", Loc: lrg(0, 3), Quals: [][]string{{"note", "alpha"}}}, {Key: "gene", Loc: lrg(3, 6), Quals: [][]string{{"note", "beta"}}},
+			{Key: "CDS", Loc: lrg(0, 3), Quals: [][]string{{"note", "alpha"}, {"a", "b"}}}, {Key: "gene", Loc: lrg(2, 4), Quals: [][]string{{"a", "alpha"}}}}
+		for _, n := range []int{1, 15, 16, 17, 63, 64, 65, 127, 128, 129, 255, 256, 257, 300, 511, 512, 513, 1023, 1024, 1025, 1100} {
+			for _, sel := range []string{"gene/note=^alpha$", "/note=^alpha$", "/=^alpha$", "gene/note=beta", "CDS/a=b", "gene"} {
+				if !eh.try(c19Case{Mode: "history", Table: table, Sel: sel, More: n}) {
+					return
+				}
+			}
+		}
+	}
+	eh.done(true)
 	e := enumPart(t, c19Prop, st, "order-triples")
 	pool := []Loc{lpt(1), lpt(2), lbt(2), lrg(1, 3), lprg(1, 3, true, false), lprg(1, 3, true, true), lrg(2, 4), lrg(1, 4), lam(1, 3),
 		lco(lrg(1, 3)), ljn(lrg(0, 1), lrg(3, 5)), ljn(lrg(3, 5), lrg(0, 1)), lor(lpt(0), lrg(2, 4)), lco(ljn(lrg(1, 2), lrg(4, 5))), ljn(lpt(1), lco(lrg(3, 4)))}
